@@ -52,6 +52,8 @@ def strat_1d(draw, tier):
     g["h_rel"] = float(f"{min(1.0, g['h_rel'] * 2):.4g}")  # levels refine further
     return {"model": draw(chain_model_spec()), "grid": g, "levels": draw(st.integers(1, 3 if tier == "quick" else 4)),
             "method": draw(st.sampled_from(METHODS_1D)),
+            # next_level is also called without path managers (that is how CouplingSDE advances its 1-d driver)
+            "no_pm": draw(st.sampled_from([False, False, True])),
             "w": [draw(st.floats(-3, 3)) for _ in range(2)]}
 
 
@@ -94,7 +96,7 @@ def body_1d(case):
         o_c = coarse_grid.origin_coordinate.value
         ax_c = np.array(coarse_grid.axes[0], dtype=float)
 
-        cp.next_level(1, pms, product)
+        cp.next_level(1, None if case.get("no_pm") else pms, product)
         g = cp.grid
         fine = cp.fine_process
         ax_f = np.array(g.axes[0], dtype=float)
@@ -175,11 +177,17 @@ def body_1d(case):
             out.append(Violation(f"{tag}/coarse-diffusion-coefficient",
                                  f"level {level}: {cp.equivalent_diffusion_coefficient_coarse!r} vs level-{level - 1} "
                                  f"chain's {coef_c!r}; {detail}"))
-        if float(cp.equivalent_diffusion_coefficient_fine) != float(fine.equivalent_diffusion_coefficient):
-            out.append(Violation(f"{tag}/fine-diffusion-coefficient", f"level {level}; {detail}"))
+        ref_fine = MarkovChainProcess(model=model, method=method, grid=copy.deepcopy(cp.grid))
+        ref_fine.initialisation(product)
+        if float(cp.equivalent_diffusion_coefficient_fine) != float(fine.equivalent_diffusion_coefficient) or \
+                not np.isclose(float(cp.equivalent_diffusion_coefficient_fine), float(ref_fine.equivalent_diffusion_coefficient),
+                               rtol=1e-12, atol=0.0):
+            out.append(Violation(f"{tag}/fine-diffusion-coefficient",
+                                 f"level {level}: coupling uses {cp.equivalent_diffusion_coefficient_fine!r}, a fresh chain on "
+                                 f"the level grid has {ref_fine.equivalent_diffusion_coefficient!r}; {detail}"))
         times = np.array([0.0, 0.25, 1.0])
-        dp = np.asarray(pms[-1].deterministic_path(times), dtype=float)
         exp_dp = np.array([x0 + float(fine.process_drift()) * times, x0 + drift_c * times])
+        dp = exp_dp if case.get("no_pm") else np.asarray(pms[-1].deterministic_path(times), dtype=float)
         if dp.shape != exp_dp.shape or not np.allclose(dp, exp_dp, rtol=1e-12, atol=1e-12):
             out.append(Violation(f"{tag}/coarse-deterministic-path",
                                  f"level {level}: {dp.tolist()} vs fine/coarse drifts {float(fine.process_drift())!r}, "
@@ -203,6 +211,8 @@ def body_1d(case):
 
 def classify_1d(case):
     labels = [branch_of(case["model"]), case["grid"]["type"], f"levels={case['levels']}", case["method"]]
+    if case.get("no_pm"):
+        labels.append("without-path-managers")
     return labels, True
 
 
@@ -462,6 +472,13 @@ def body_sde(case):
             out.append(Violation("C03/sde/fine-driver-drift",
                                  f"level {level}: mc_drift_h={cs.mc_drift_h!r}, level-{level} chain drift "
                                  f"{fine.process_drift()!r}; {detail}"))
+        drv = cs.driver_coupling_process
+        for name, got, ref in (("fine", drv.equivalent_diffusion_coefficient_fine, fine.equivalent_diffusion_coefficient),
+                               ("coarse", drv.equivalent_diffusion_coefficient_coarse, coarse.equivalent_diffusion_coefficient)):
+            if not np.isclose(float(got), float(ref), rtol=1e-12, atol=0.0):
+                out.append(Violation(f"C03/sde/{name}-driver-diffusion-coefficient",
+                                     f"level {level}: coupling uses {got!r}, a fresh chain on that level's grid has {ref!r}; "
+                                     f"{detail}"))
         h = cs.driver_coupling_process.grid.h
         eps = h ** driver.blumenthal_getoor_index()
         if not np.isclose(cs.epsilon, eps, rtol=1e-12):
@@ -482,7 +499,7 @@ SUBCHECKS = [
                   "sum_k r_f(k)P(k->y) vs a fresh level-(l-1) chain on a pre-refinement copy of the grid, mass sent "
                   "to zero vs quadrature, black-box kernel via coupling_state with scripted uniforms, even "
                   "increments copied, coarse coefficient/drift frozen, shared Brownian increment (scripted deque)",
-             strategy=strat_1d, budget={"quick": 96, "thorough": 1200}, shards={"quick": 16, "thorough": 16}),
+             strategy=strat_1d, budget={"quick": 240, "thorough": 2400}, shards={"quick": 16, "thorough": 16}),
     SubCheck("coupling-copula", body_copula, classify_copula,
              rule="copula chains d=2,3 (finite variation, small level-0 grids) at level 1: black-box kernel of "
                   "every fine state (scripted uniforms, measured by bisection) vs the conditional law of the "
@@ -492,5 +509,5 @@ SUBCHECKS = [
     SubCheck("coupling-sde-drifts", body_sde, classify_sde,
              rule="CouplingSDE over a 1-d driver, levels 1..2: mc_drift_2h = drift of a fresh level-(l-1) chain, "
                   "mc_drift_h = level-l chain drift, epsilon = h^beta, deterministic path = x0 for both components",
-             strategy=strat_sde, budget={"quick": 48, "thorough": 480}, shards={"quick": 16, "thorough": 16}),
+             strategy=strat_sde, budget={"quick": 320, "thorough": 3200}, shards={"quick": 16, "thorough": 16}),
 ]
